@@ -32,6 +32,7 @@ func strOfBytes(v []int) string {
 // statement itself is checked too: no name twice, nothing dropped, refusal only for a genuine clash.
 func corrTypeDedup(ctx *Ctx, n int) error {
 	t := template.Must(template.New("x").Parse(`{{define "typedef.tmpl"}}{{range .Types}}{{.TypeName}}={{.Schema.OAPISchema.Description}};{{end}}{{end}}`))
+	bt := template.Must(template.New("y").Parse(`{{define "additional-properties.tmpl"}}{{range .Types}}{{.TypeName}};{{end}}{{end}}{{define "union.tmpl"}}{{range .Types}}{{.TypeName}};{{end}}{{end}}{{define "union-and-additional-properties.tmpl"}}{{range .Types}}{{.TypeName}};{{end}}{{end}}`))
 	names := []string{"Pet", "Pets", "Error", "N200", "Überraschung"}
 	for i := 0; i < n; i++ {
 		r := ctx.Rng.Fork()
@@ -43,7 +44,12 @@ func corrTypeDedup(ctx *Ctx, n int) error {
 			nm := names[r.Intn(len(names))]
 			body := r.Intn(nb)
 			// the schema DeepEqual compares: a fresh object per definition, equal exactly when `body` is
-			tds = append(tds, codegen.TypeDefinition{TypeName: nm, JsonName: nm, Schema: codegen.Schema{GoType: "int", OAPISchema: &openapi3.Schema{Description: fmt.Sprint(body)}}})
+			// body 1 has additional properties, bodies 1 and 2 are unions
+			sch := codegen.Schema{GoType: "int", OAPISchema: &openapi3.Schema{Description: fmt.Sprint(body)}, HasAdditionalProperties: body == 1}
+			if body >= 1 {
+				sch.UnionElements = []codegen.UnionElement{"string"}
+			}
+			tds = append(tds, codegen.TypeDefinition{TypeName: nm, JsonName: nm, Schema: sch})
 			enc = append(enc, append([]int{body}, bytesOf(nm)...))
 		}
 		if enc == nil {
@@ -53,11 +59,60 @@ func corrTypeDedup(ctx *Ctx, n int) error {
 		got, err := codegen.GenerateTypes(t, tds)
 		_ = before
 		var m struct {
-			Ok    []int `json:"ok"`
-			Error []int `json:"error"`
+			Ok    []int   `json:"ok"`
+			Error []int   `json:"error"`
+			Addl  [][]int `json:"addl"`
+			Union [][]int `json:"union"`
+			Both  [][]int `json:"both"`
 		}
-		if e := ctx.Model(J{"fn": "genTypes", "types": enc}, &m); e != nil {
+		if e := ctx.Model(J{"fn": "genTypes", "types": enc, "needAddl": []int{1}, "needUnion": []int{1, 2}, "needBoth": []int{1}}, &m); e != nil {
 			return e
+		}
+		// the methods: each boilerplate generator vs TypeDedup.boilerplate, and (when the declarations are accepted)
+		// vs the declarations themselves — a method for every declared type that needs it, once
+		join := func(rows [][]int) string {
+			var b strings.Builder
+			for _, r := range rows {
+				b.WriteString(strOfBytes(r) + ";")
+			}
+			return b.String()
+		}
+		for _, g := range []struct {
+			name  string
+			fn    func(*template.Template, []codegen.TypeDefinition) (string, error)
+			model string
+			needs func(int) bool
+		}{
+			{"GenerateAdditionalPropertyBoilerplate", codegen.GenerateAdditionalPropertyBoilerplate, join(m.Addl), func(b int) bool { return b == 1 }},
+			{"GenerateUnionBoilerplate", codegen.GenerateUnionBoilerplate, join(m.Union), func(b int) bool { return b >= 1 }},
+			{"GenerateUnionAndAdditionalProopertiesBoilerplate", codegen.GenerateUnionAndAdditionalProopertiesBoilerplate, join(m.Both), func(b int) bool { return b == 1 }},
+		} {
+			out, gerr := g.fn(bt, tds)
+			if gerr != nil {
+				out = "error: " + gerr.Error()
+			}
+			if out != g.model {
+				ctx.Res.Disagree("CORR "+g.name+" vs TypeDedup.boilerplate", J{"types": enc}, g.model, out)
+			}
+			if err == nil && m.Error == nil {
+				// the declarations GenerateTypes accepted: first definition of every name
+				seen := map[string]bool{}
+				want := ""
+				for _, td := range tds {
+					if seen[td.TypeName] {
+						continue
+					}
+					seen[td.TypeName] = true
+					var bd int
+					fmt.Sscan(td.Schema.OAPISchema.Description, &bd)
+					if g.needs(bd) {
+						want += td.TypeName + ";"
+					}
+				}
+				if out != want {
+					ctx.Res.Violate("generate-types:methods:"+g.name, fmt.Sprintf("%s generates methods for [%s]; the declared types that need them are [%s]", g.name, out, want), J{"types": enc})
+				}
+			}
 		}
 		c := J{"types": enc}
 		ctx.Res.Eval(c, k > 1)
